@@ -32,7 +32,8 @@ def Sh.remove (drop : Key → Bool) : Sh → Option Sh
     | some l', some r' => some (.op l' r')
 
 /-- The key list `State.splits` builds for a splitter of this shape: an unprocessed left operand of an already processed
-    right operand is put in front of ALL keys collected so far (D46). -/
+    right operand is put in front of ALL keys collected so far (the bookkeeping BEFORE the fix of D46; kept to recognise
+    the shape, which is inside `inClass` again). -/
 def Sh.keysAux : Sh → List Key → List Key
   | .leaf _, ks => ks
   | .op l r, ks =>
@@ -62,7 +63,7 @@ structure Info where
   hist : List Name
   shape : Option Sh := none        -- nesting of the final splitter: upstream shapes in connection order, then the own part
   misordered : Bool := false       -- the node has a combiner and `splits` lists the keys of what is left in another order
-                                   -- than the index tuples are nested (D46)
+                                   -- than the index tuples are nested (old bookkeeping, D46 fixed)
   deriving Inhabited, Repr
 
 abbrev Infos := List Info
@@ -170,7 +171,7 @@ structure Flags where
   combAllPrev : Bool       -- D37
   partialZipFeeds : Bool   -- D29
   nameClash : Bool         -- D39
-  keyOrder : Bool          -- D46
+  keyOrder : Bool          -- the shape on which D46 (fixed in /repo 932a47fa) showed; a coverage counter, not an exclusion
   deriving Repr, DecidableEq
 
 def flags (w : Wf) : Flags :=
@@ -193,7 +194,7 @@ def noSharedOrigin (w : Wf) : Bool := !(flags w).shared
     with the nested-loop reference (a disagreement there is a VIOLATION, never a known finding). -/
 def inClass (w : Wf) : Bool :=
   let f := flags w
-  !f.shared && !f.laterMulti && !f.combAllPrev && !f.partialZipFeeds && !f.nameClash && !f.keyOrder
+  !f.shared && !f.laterMulti && !f.combAllPrev && !f.partialZipFeeds && !f.nameClash
 
 /-- Structural well-formedness = the generator's domain. -/
 def wellFormed (w : Wf) : Bool :=
